@@ -38,10 +38,17 @@ EXPLANATION = (
 )
 RULE_TEXT = ("instances = reaching definitions of the copied template and of the top-level circuit, the per-row key uses, update "
              "records of adapt_circuit, the edge loop of CircuitTemplate.update_var, re-addressing stores, forwarded run arguments; "
-             "non-trivial = decided by reaching definitions / value identity / template parsing")
+             "non-trivial = decided by reaching definitions / value identity / template parsing.  All of it is evaluated on normalised "
+             "copies of grid_search, adapt_circuit, linearize_grid and CircuitTemplate.update_var: private helpers inlined, parallel "
+             "assignments split, loops merged under a flag case-split; values are identified by role (which element of which container, "
+             "definitions behind aliases), not by local names or one spelling; a form that is not recognised is an analysis error, "
+             "never a violation")
 ASSUMPTIONS = [
     "copy.deepcopy returns an object that shares no mutable state with its argument (library semantics).",
     "CircuitTemplate.update_template(circuits=...) adds sub-circuits without connecting them (it forwards the existing edge list only).",
+    "Looking through a private helper by inlining it preserves the facts the rules use (which value reaches which call / store); helpers "
+    "with *args/**kwargs, generators, nested functions or a return inside a loop are not inlined - the anchor they hide is then "
+    "reported as an analysis error.",
 ]
 
 
@@ -884,6 +891,10 @@ def elem_of(ctx, F, n, depth: int = 6) -> Optional[Elem]:
             if isinstance(v, ast.Subscript) and isinstance(v.slice, ast.Slice) and v.slice.lower is None and v.slice.step is None and p:
                 v = v.value                                                     # a, b, c = record[:3]
             e = None
+            if isinstance(v, ast.Subscript) and isinstance(v.slice, ast.Slice) and v.slice.upper is None and v.slice.step is None and not p \
+                    and isinstance(v.slice.lower, ast.Constant) and isinstance(v.slice.lower.value, int) and isinstance(v.value, ast.Name):
+                b = elem_of(ctx, F, v.value, depth - 1)                          # rest = record[3:]
+                return b.extend(("*", v.slice.lower.value)) if b is not None else None
             if isinstance(v, ast.Name):
                 e = elem_of(ctx, F, v, depth - 1)
             elif isinstance(v, ast.Subscript) and isinstance(v.value, ast.Name):
@@ -910,6 +921,17 @@ def elem_of(ctx, F, n, depth: int = 6) -> Optional[Elem]:
     if r is None:
         return None
     return Elem(r[0], binder, r[2], r[1], r[3])
+
+
+def elem_of_expr(ctx, F, e, depth: int = 4) -> Optional[Elem]:
+    """elem_of for a name or a constant subscript chain of one (`spec[0]`)."""
+    if isinstance(e, ast.Name):
+        return elem_of(ctx, F, e)
+    if depth > 0 and isinstance(e, ast.Subscript) and isinstance(e.slice, ast.Constant) and isinstance(e.slice.value, int) \
+            and not isinstance(e.slice.value, bool):
+        b = elem_of_expr(ctx, F, e.value, depth - 1)
+        return b.extend(e.slice.value) if b is not None else None
+    return None
 
 
 def _func(ctx, name) -> SynFunc:
@@ -950,16 +972,28 @@ def _row_entry(ctx, gs, up, rid):
     return cd.keys[0], cd.values[0]
 
 
-def _row_table(ctx, gs, loop, rid):
-    """The table whose `.index` the row loop iterates (a Name), or None when the loop counts positions (`range(...)`)."""
-    it = resolve(ctx, gs, loop.iter)
-    if isinstance(it, ast.Call) and isinstance(it.func, ast.Name) and it.func.id in ("list", "tuple") and len(it.args) == 1:
-        it = resolve(ctx, gs, it.args[0])
-    if isinstance(it, ast.Attribute) and it.attr == "index" and isinstance(it.value, ast.Name):
-        return it.value
+def _row_labels(ctx, gs, loop, rid):
+    """(table, names): the row loop visits `<table>.index` (directly, through a snapshot or enumerate) and `names` are the loop
+    variables that hold the row label; table is None when the loop counts positions (`range(...)`)."""
+    def peel(e):
+        e = resolve(ctx, gs, e)
+        e2, snap = _strip_snapshot(e)
+        return resolve(ctx, gs, e2) if snap else e
+    it = peel(loop.iter)
+    tgt = loop.target
+    if isinstance(it, ast.Call) and isinstance(it.func, ast.Name) and it.func.id == "enumerate" and len(it.args) == 1 \
+            and isinstance(tgt, ast.Tuple) and len(tgt.elts) == 2:
+        it = peel(it.args[0])
+        tgt = tgt.elts[1]
+    if isinstance(it, ast.Attribute) and it.attr == "index" and isinstance(it.value, ast.Name) and isinstance(tgt, ast.Name):
+        return it.value, {tgt.id}
     if isinstance(it, ast.Call) and isinstance(it.func, ast.Name) and it.func.id == "range":
-        return None
+        return None, set(target_names(loop.target))
     raise AnalysisError(f"{rid}: the row loop iterates `{norm(loop.iter)}`, not `<table>.index` (unrecognised form)")
+
+
+def _row_table(ctx, gs, loop, rid):
+    return _row_labels(ctx, gs, loop, rid)[0]
 
 
 def _bind_call(g: FunctionInfo, call: ast.Call) -> Dict[str, ast.AST]:
@@ -1174,8 +1208,9 @@ def r2_one_key_per_row(ctx, rid):
     # (b) unique: contains the loop variable
     loopvars = set(target_names(loop.target))
     kr = expand(ctx, gs, key)
+    inside_adapt = {id(x) for c in ast.walk(kr) if isinstance(c, ast.Call) and call_name(c) == "adapt_circuit" for x in ast.walk(c)}
     dep = {n.id for n in ast.walk(kr) if isinstance(n, ast.Name) and n.id in loopvars and comp_generator_of(n) is None
-           and any(d is loop for d in rd.defs_reaching(n))}
+           and id(n) not in inside_adapt and any(d is loop for d in rd.defs_reaching(n))}
     kst = stmt_of(cfg, resolve(ctx, gs, key)) or up_st
     if dep:
         ctx.ok(rid, gs, kst, "the key contains the row label, so every row has its own key", {"key": norm(kr)}, label="key is unique per row")
@@ -1200,7 +1235,8 @@ def r2_one_key_per_row(ctx, rid):
             ctx.violation(rid, gs, loop, f"the loop runs over `{norm(loop.iter)}` but the labels are assigned to `{labelled.id}.index`: label i would "
                                          f"not belong to row i", label="row order")
         after = not contains(loop, ia) and cfg.dominates(loop, ia)
-        fresh = [v for _, v, _ in terminal_defs(ctx, gs, ia.value)]
+        app_stmts = {id(a) for a, _ in apps}
+        fresh = [v for d, v, _ in terminal_defs(ctx, gs, ia.value) if id(d) not in app_stmts]
         fresh_ok = len(fresh) == 1 and ((isinstance(fresh[0], ast.List) and not fresh[0].elts)
                                         or (isinstance(fresh[0], ast.Call) and isinstance(fresh[0].func, ast.Name) and fresh[0].func.id == "list"
                                             and not fresh[0].args))
@@ -1210,13 +1246,13 @@ def r2_one_key_per_row(ctx, rid):
             ctx.violation(rid, gs, ia, "the table's index is not set, after the row loop, to the freshly built list of keys", label="parameter table index")
     # (e) the labelled table is returned
     rets = [n for n in walk_shallow(gs.node) if isinstance(n, ast.Return)]
-    ok_ret = ia is not None and len(rets) == 1 and isinstance(rets[0].value, ast.Tuple) and len(rets[0].value.elts) == 2 \
-        and isinstance(rets[0].value.elts[1], ast.Name) and same_origin(ctx, gs, rets[0].value.elts[1], labelled) and cfg.dominates(ia, rets[0])
+    ctx.require(len(rets) == 1 and isinstance(rets[0].value, ast.Tuple) and len(rets[0].value.elts) == 2 and isinstance(rets[0].value.elts[1], ast.Name),
+                f"{rid}: grid_search does not end in one `return <results>, <table>` (unrecognised form)")
+    ok_ret = ia is not None and same_origin(ctx, gs, rets[0].value.elts[1], labelled) and cfg.dominates(ia, rets[0])
     if ok_ret:
         ctx.ok(rid, gs, rets[0], "the re-indexed parameter table is what grid_search returns", label="returned table")
     else:
-        ctx.violation(rid, gs, rets[0] if rets else gs.node, "grid_search does not return the table whose index was set to the result labels",
-                      label="returned table")
+        ctx.violation(rid, gs, rets[0], "grid_search does not return the table whose index was set to the result labels", label="returned table")
 
 
 # --------------------------------------------------------------------------------------------
@@ -1330,8 +1366,7 @@ def _r3_row_values(ctx, rid, gs, ac):
     ctx.require(isinstance(P, ast.Name), f"{rid}: the row parameters handed to adapt_circuit are not a plain name (unrecognised form)")
     stores = [s for s in _dict_entries(ctx, gs, P, loop, rid) if contains(loop, s[0])]
     ctx.require(stores, f"{rid}: nothing is stored into `{P.id}` inside the row loop")
-    rowvars = set(target_names(loop.target))
-    loop_table = _row_table(ctx, gs, loop, rid)
+    loop_table, rowvars = _row_labels(ctx, gs, loop, rid)
     for st, k, v in stores:
         col = row = tbl = None
         if isinstance(v, ast.Subscript) and isinstance(v.value, ast.Subscript) and isinstance(v.value.value, ast.Name):
@@ -1571,6 +1606,8 @@ class _AdaptCase:
                         and call_name(e.value) == "get_edge" and (ge is None or getattr(ge, "_src", ge) is getattr(e.value, "_src", e.value)):
                     ge = e.value
                     continue
+                if not isinstance(e, (ast.Name, ast.Subscript, ast.Constant)):
+                    raise AnalysisError(f"{rid}: element {i} of the edge record `{norm(rec0)}` is `{norm(e)}` (unrecognised form)")
                 why.append(f"element {i} is `{norm(e)}`, not element {i} of the edge that get_edge resolved")
             d = rec.elts[2]
             if not (isinstance(d, ast.Dict) and len(d.keys) == 1 and d.keys[0] is not None and self.from_map_list(d.keys[0], "vars") is not None
@@ -1586,7 +1623,15 @@ class _AdaptCase:
                     a = gkw.get(role)
                     if a is None or (role == "idx" and isinstance(a, ast.Constant) and a.value in (0, None)):
                         continue
-                    el = elem_of(ctx, V, a) if isinstance(a, ast.Name) else None
+                    src = a
+                    if role == "idx" and isinstance(a, ast.IfExp):
+                        # `spec[2] if len(spec) > 2 else 0`: the entry's own index where it has one, else the default 0
+                        alts = [b for b in (a.body, a.orelse) if not (isinstance(b, ast.Constant) and b.value in (0, None))]
+                        if len(alts) == 1:
+                            src = alts[0]
+                    el = elem_of_expr(ctx, V, src)
+                    if el is None and not isinstance(a, (ast.Name, ast.Constant)):
+                        raise AnalysisError(f"{rid}: cannot tell where get_edge's `{role}` argument `{norm(a)}` comes from (unrecognised form)")
                     if el is None or el.kind != "elem" or el.path != (pos,) or (eloop is not None and el.binder is not eloop.binder):
                         why.append(f"get_edge's `{role}` is `{norm(a)}`, not element {pos} of the map's edge entry this record is built for")
                     else:
@@ -1710,7 +1755,11 @@ def _r3_consumer(ctx, rid, carries_idx):
                 kinds = [opt_index(v) for v in vals]
                 if all(kinds) and "idx" in kinds and "zero" in kinds:
                     return 3
+                if all(k == "zero" for k in kinds):
+                    return "zero"
             return None
+        if isinstance(e, ast.Constant):
+            return "zero" if opt_index(e) == "zero" else None
         if isinstance(e, ast.IfExp):
             kinds = {opt_index(e.body), opt_index(e.orelse)}
             if kinds == {"idx", "zero"}:
@@ -1749,6 +1798,9 @@ def _r3_consumer(ctx, rid, carries_idx):
         pi = rec_pos(gkw["idx"])
         if pi == 3:
             ctx.ok(rid, U, g, "update_var resolves the edge with the record's source, target and index", label=label)
+        elif pi == "zero":
+            ctx.violation(rid, U, g, f"`{norm(g)}` resolves the edge with a constant index instead of the index of the edge record: parameter "
+                                     f"updates addressed to the idx-th parallel edge between two variables change edge 0 instead", label=label)
         elif pi is not None:
             ctx.violation(rid, U, g, f"`{norm(g)}` resolves the edge with element {pi} of the record as its index, not with the record's own index",
                           label=label)
@@ -1803,7 +1855,6 @@ def r4_all_prefix_and_run(ctx, rid):
             ctx.violation(rid, gs, run, f"the {role} handed to run() are never re-addressed to the sub-circuits (`all/<path>`): a path of the "
                                         f"single circuit does not exist in the combined circuit", label=f"{role}: all/ prefix")
             continue
-        in_place = is_param(ctx, gs, nm, role) or any(isinstance(d, ast.arguments) for d, _, _ in terminal_defs(ctx, gs, nm))
         for st, k, v in stores:
             path = v if role == "outputs" else k
             other = k if role == "outputs" else v
@@ -1817,17 +1868,27 @@ def r4_all_prefix_and_run(ctx, rid):
                 he = elem_of(ctx, gs, hole)
                 oe = elem_of(ctx, gs, other) if isinstance(other, ast.Name) else None
                 if he is None or oe is None:
-                    if isinstance(other, ast.Subscript) and he is not None and he.kind in ("key", "elem") and role == "inputs" \
+                    src = sub = None
+                    if isinstance(other, ast.Subscript):
+                        src, sub = other.value, other.slice                                   # inputs[f"all/{k}"] = inputs[k]
+                    elif isinstance(other, ast.Call) and isinstance(other.func, ast.Attribute) and other.func.attr == "pop" and len(other.args) == 1 \
+                            and not other.keywords:
+                        src, sub = other.func.value, other.args[0]                            # inputs[f"all/{k}"] = inputs.pop(k)
+                    if src is not None and he is not None and he.kind in ("key", "elem") and role == "inputs" \
                             and isinstance(he.container, ast.Name) and is_param(ctx, gs, he.container, role) \
-                            and isinstance(other.value, ast.Name) and is_param(ctx, gs, other.value, role) and same_value(ctx, gs, other.slice, hole):
-                        oe = Elem(he.container, he.binder, (), "value", he.snapshot)         # inputs[f"all/{k}"] = inputs[k]
+                            and isinstance(src, ast.Name) and is_param(ctx, gs, src, role) and same_value(ctx, gs, sub, hole):
+                        he = Elem(he.container, he.binder, (), "key", he.snapshot)
+                        oe = Elem(he.container, he.binder, (), "value", he.snapshot)
                     else:
                         raise AnalysisError(f"{rid}: cannot tell where `{norm(hole)}` / `{norm(other)}` in `{norm(st)}` come from (unrecognised form)")
                 want_hole, want_other = ("value", "key") if role == "outputs" else ("key", "value")
                 src_ok = he.binder is oe.binder and he.kind == want_hole and oe.kind == want_other and not he.path and not oe.path \
                     and isinstance(he.container, ast.Name) and is_param(ctx, gs, he.container, role) \
                     and isinstance(oe.container, ast.Name) and is_param(ctx, gs, oe.container, role)
-                if src_ok and role == "inputs" and in_place and not (he.snapshot and oe.snapshot):
+                tgt = st.targets[0].value if isinstance(st, ast.Assign) and isinstance(st.targets[0], ast.Subscript) else None
+                in_place = isinstance(tgt, ast.Name) and bool({id(d) for d, _, _ in terminal_defs(ctx, gs, tgt)}
+                                                              & {id(d) for d, _, _ in terminal_defs(ctx, gs, he.container)})
+                if src_ok and in_place and not (he.snapshot and oe.snapshot):
                     # iterating while storing into the same dict requires a snapshot of the items
                     src_ok = False
                     why = "the dict is modified while it is iterated (no copy)"
@@ -1844,17 +1905,22 @@ def r4_all_prefix_and_run(ctx, rid):
     for p in ("simulation_time", "step_size", "sampling_step_size"):
         if p in kw and is_param(ctx, gs, kw[p], p):
             ctx.ok(rid, gs, run, f"run() receives the caller's {p} unchanged", label=f"run argument {p}", nontrivial=False)
+        elif p in kw and not isinstance(kw[p], (ast.Name, ast.Constant)) and any(isinstance(n, ast.Name) and n.id == p for n in ast.walk(kw[p])):
+            raise AnalysisError(f"{rid}: run() receives {p}=`{norm(kw[p])}` (unrecognised form)")
         else:
             ctx.violation(rid, gs, run, f"run() does not receive the caller's `{p}` unchanged (`{norm(kw[p]) if p in kw else 'missing'}`): the sweep "
                                         f"would be integrated differently from an individual run", label=f"run argument {p}")
     rets = [n for n in walk_shallow(gs.node) if isinstance(n, ast.Return)]
     run_st = stmt_of(cfg, run)
-    good = len(rets) == 1 and isinstance(rets[0].value, ast.Tuple) and rets[0].value.elts and isinstance(rets[0].value.elts[0], ast.Name) \
-        and isinstance(run_st, ast.Assign) and run_st.value is run and [d for d, _, _ in terminal_defs(ctx, gs, rets[0].value.elts[0])] == [run_st]
+    ctx.require(len(rets) == 1 and isinstance(rets[0].value, ast.Tuple) and len(rets[0].value.elts) == 2,
+                f"{rid}: grid_search does not end in one `return <results>, <table>` (unrecognised form)")
+    r0 = rets[0].value.elts[0]
+    ctx.require(r0 is run or isinstance(r0, ast.Name), f"{rid}: grid_search returns `{norm(r0)}` as its results (unrecognised form)")
+    good = r0 is run or (isinstance(run_st, ast.Assign) and run_st.value is run and [d for d, _, _ in terminal_defs(ctx, gs, r0)] == [run_st])
     if good:
         ctx.ok(rid, gs, rets[0], "the DataFrame returned by run() is returned unchanged", label="returned results", nontrivial=False)
     else:
-        ctx.violation(rid, gs, rets[0] if rets else gs.node, "grid_search does not return the result of the combined run unchanged", label="returned results")
+        ctx.violation(rid, gs, rets[0], "grid_search does not return the result of the combined run unchanged", label="returned results")
 
 
 # --------------------------------------------------------------------------------------------
@@ -1965,15 +2031,21 @@ def r5_linearize_grid(ctx, rid):
     n_expr = resh.args[1] if len(resh.args) == 2 else (resh.args[0].elts[1] if len(resh.args) == 1 and isinstance(resh.args[0], ast.Tuple)
                                                         and len(resh.args[0].elts) == 2 else None)
     first = resh.args[0] if len(resh.args) == 2 else (resh.args[0].elts[0] if n_expr is not None else None)
-    axis_ok = axis is not None and ast.unparse(expand(ctx, lg, axis)) == "-1"
+    ax = expand(ctx, lg, axis) if axis is not None else None
+    if ax is not None and not (isinstance(ax, ast.Constant) or (isinstance(ax, ast.UnaryOp) and isinstance(ax.operand, ast.Constant))):
+        raise AnalysisError(f"{rid}: the stacking axis `{norm(axis)}` is not a literal (unrecognised form)")
+    axis_ok = ax is not None and ast.unparse(ax) == "-1"
     n_ok = False
-    if n_expr is not None and first is not None and ast.unparse(first) == "-1":
+    ctx.require(n_expr is not None and first is not None, f"{rid}: `{norm(resh)}` is not reshape(-1, n) (unrecognised form)")
+    if ast.unparse(first) == "-1":
         ne = expand(ctx, lg, n_expr)
         if isinstance(ne, ast.Call) and isinstance(ne.func, ast.Name) and ne.func.id == "len" and len(ne.args) == 1:
             a = n_expr.args[0] if isinstance(n_expr, ast.Call) and isinstance(n_expr.func, ast.Name) and n_expr.func.id == "len" and len(n_expr.args) == 1 else ne.args[0]
             n_ok = (isinstance(a, ast.Name) and is_param(ctx, lg, a, p_grid)) or _projection(ctx, lg, a, p_grid) is not None \
                 or (isinstance(a, ast.Name) and isinstance(cols, ast.Name) and same_origin(ctx, lg, a, cols)) \
                 or (isinstance(a, ast.Name) and isinstance(vals, ast.Name) and same_origin(ctx, lg, a, vals))
+        if not n_ok:
+            raise AnalysisError(f"{rid}: cannot tell whether `{norm(n_expr)}` in `{norm(resh)}` is the number of grid keys (unrecognised form)")
     if axis_ok and n_ok:
         ctx.ok(rid, lg, stmt_of(cfg, resh), "the mesh is stacked along the last axis and flattened to rows of n values: column j holds values of key j",
                {"grid": norm(resh)}, label="permuted grid layout")
@@ -1986,11 +2058,14 @@ def r5_linearize_grid(ctx, rid):
     ctx.require(len(lcs) == 1, f"{rid}: expected one linearize_grid call in grid_search")
     b = _bind_call(lgo, lcs[0])
     st = stmt_of(ctx.cfg(gs), lcs[0])
+    ctx.require(isinstance(st, ast.Assign) and len(st.targets) == 1 and isinstance(st.targets[0], ast.Name)
+                and (st.value is lcs[0] or (isinstance(st.value, ast.IfExp) and lcs[0] in (st.value.body, st.value.orelse))),
+                f"{rid}: `{norm(st)}` does not bind the linearised grid to a name (unrecognised form)")
     loop, _ = _row_loop(ctx, gs, rid)
     table = _row_table(ctx, gs, loop, rid)
     # (a loop that counts positions instead of iterating `<table>.index` is R3's business: only the call itself is judged here)
     good = is_param(ctx, gs, b.get(lgo.params[0]), "param_grid") and is_param(ctx, gs, b.get(lgo.params[1]), "permute_grid") \
-        and isinstance(st, ast.Assign) and st.value is lcs[0] and (table is None or any(d is st for d, _, _ in terminal_defs(ctx, gs, table)))
+        and (table is None or any(d is st for d, _, _ in terminal_defs(ctx, gs, table)))
     if good:
         ctx.ok(rid, gs, st, "grid_search linearises the caller's grid with the caller's permute flag", label="grid_search linearises", nontrivial=False)
     else:
